@@ -1,6 +1,6 @@
 CONSTANTS
   Dev = {"entity_double_decode"}
-  Which = "decorated"
+  Which = "witness"
 INIT TInit
 NEXT TNext
 INVARIANT RoundTrip
